@@ -710,25 +710,33 @@ func (fr *Frame) evalAppend(s *State, call *ast.CallExpr, t types.Type) *Val {
 	cur := &Val{T: t, S: fr.vc.define("ap0", "Slice", base.S)}
 	for _, a := range call.Args[1:] {
 		v := fr.convertTo(s, fr.eval(s, a), st.Elem())
-		// in place when len < cap, otherwise a fresh backing array containing a copy
-		inplace := fmt.Sprintf("(< (sl_len %s) (sl_cap %s))", cur.S, cur.S)
-		h := s.heap(hn, hs)
-		// in-place branch
-		hIn := fmt.Sprintf("(store %s (sl_ref %s) (store (select %s (sl_ref %s)) (ix (sl_off %s) (sl_len %s)) %s))", h, cur.S, h, cur.S, cur.S, cur.S, v.S)
-		rIn := fmt.Sprintf("(mk_Slice (sl_ref %s) (sl_off %s) (+ (sl_len %s) 1) (sl_cap %s))", cur.S, cur.S, cur.S, cur.S)
-		// growing branch
-		ref := s.alloc()
-		newArr := fr.vc.declare("grown", fmt.Sprintf("(Array Int %s)", es))
-		newCap := fr.vc.declare("newcap", "Int")
-		s.assume(fmt.Sprintf("(> %s (sl_len %s))", newCap, cur.S))
-		s.assume(fmt.Sprintf("(forall ((i Int)) (! (=> (and (<= 0 i) (< i (sl_len %s))) (= (select %s i) (select (select %s (sl_ref %s)) (ix (sl_off %s) i)))) :pattern ((select %s i))))",
-			cur.S, newArr, h, cur.S, cur.S, newArr))
-		hGrow := fmt.Sprintf("(store %s %s (store %s (sl_len %s) %s))", h, ref, newArr, cur.S, v.S)
-		rGrow := fmt.Sprintf("(mk_Slice %s 0 (+ (sl_len %s) 1) %s)", ref, cur.S, newCap)
-		s.setHeap(hn, hs, ite(inplace, hIn, hGrow))
-		cur = &Val{T: t, S: fr.vc.define("app", "Slice", ite(inplace, rIn, rGrow))}
+		cur = fr.appendOne(s, cur, v, t, hn, hs, es)
 	}
 	return cur
+}
+
+// appendOne models append(a, v) for non-byte slices: in place when len < cap, otherwise a fresh backing array
+// holding a copy. The resulting array is a declared constant described by quantified facts over absolute
+// positions (same shape as appendSlice), so that chains of appends stay matchable.
+func (fr *Frame) appendOne(s *State, cur, v *Val, t types.Type, hn, hs, es string) *Val {
+	h := s.heap(hn, hs)
+	la := "(sl_len " + cur.S + ")"
+	fits := fr.vc.define("fits", "Bool", fmt.Sprintf("(< %s (sl_cap %s))", la, cur.S))
+	ref := s.alloc()
+	resRef := fr.vc.declare("aref", "Int")
+	resOff := fr.vc.declare("aoff", "Int")
+	fr.vc.facts = append(fr.vc.facts, eq(resRef, ite(fits, "(sl_ref "+cur.S+")", ref)), eq(resOff, ite(fits, "(sl_off "+cur.S+")", "0")))
+	newCap := fr.vc.declare("newcap", "Int")
+	s.assume(fmt.Sprintf("(> %s %s)", newCap, la))
+	newArr := fr.vc.declare("apparr", fmt.Sprintf("(Array Int %s)", es))
+	oldA := fmt.Sprintf("(select %s (sl_ref %s))", h, cur.S)
+	s.assume(fmt.Sprintf("(forall ((i Int)) (! (=> (and (<= 0 i) (< i %s)) (= (select %s (ix %s i)) (select %s %s))) :pattern ((select %s (ix %s i)))))",
+		la, newArr, resOff, oldA, elemAddr(cur, "i"), newArr, resOff))
+	s.assume(fmt.Sprintf("(= (select %s (ix %s %s)) %s)", newArr, resOff, la, v.S))
+	s.assume(fmt.Sprintf("(=> %s (forall ((j Int)) (! (=> (or (< j %s) (> j (+ %s %s))) (= (select %s j) (select %s j))) :pattern ((select %s j)))))",
+		fits, resOff, resOff, la, newArr, oldA, newArr))
+	s.setHeap(hn, hs, fmt.Sprintf("(store %s %s %s)", h, resRef, newArr))
+	return &Val{T: t, S: fr.vc.define("app", "Slice", fmt.Sprintf("(mk_Slice %s %s (+ %s 1) %s)", resRef, resOff, la, ite(fits, "(sl_cap "+cur.S+")", newCap)))}
 }
 
 // appendSlice models append(a, b...) for non-byte slices.
@@ -742,8 +750,11 @@ func (fr *Frame) appendSlice(s *State, a, b *Val, st *types.Slice, pos token.Pos
 	fits := fr.vc.define("fits", "Bool", fmt.Sprintf("(<= %s (sl_cap %s))", total, a.S))
 	// resulting backing array (either a's, updated in place, or a fresh one)
 	ref := s.alloc()
-	resRef := fr.vc.define("aref", "Int", ite(fits, "(sl_ref "+a.S+")", ref))
-	resOff := fr.vc.define("aoff", "Int", ite(fits, "(sl_off "+a.S+")", "0"))
+	// declared constants with defining equations (not define-fun): they occur in quantifier patterns, where z3
+	// rejects the expanded ite
+	resRef := fr.vc.declare("aref", "Int")
+	resOff := fr.vc.declare("aoff", "Int")
+	fr.vc.facts = append(fr.vc.facts, eq(resRef, ite(fits, "(sl_ref "+a.S+")", ref)), eq(resOff, ite(fits, "(sl_off "+a.S+")", "0")))
 	newCap := fr.vc.declare("newcap", "Int")
 	s.assume(fmt.Sprintf("(>= %s %s)", newCap, total))
 	resCap := ite(fits, "(sl_cap "+a.S+")", newCap)
